@@ -396,7 +396,8 @@ def run(ctx):
         INV_TBW = ['NoDataRace', 'Exclusive', 'NoNodeLost']
         jobs.append(lambda: tlc_mc(ctx, 'ra_threadblocklist', 'ThreadBlockList_RA', tb_ra, invariants=INV_TBW, view='mcview', constraints=['MsgBound5'], workers=4, tmo=1200,
                                    extra_files={'ThreadBlockList_RA.tla': modt}))
-        for nm, chg in (('push_rlx', '!.a_push = "rlx"'), ('head_load_rlx', '!.a_ldh = "rlx"'), ('abandon_cas_rlx', '!.b_cas = "rlx"')):
+        for nm, chg in (('push_rlx', '!.a_push = "rlx"'), ('head_load_rlx', '!.a_ldh = "rlx"'), ('abandon_cas_rlx', '!.b_cas = "rlx"'),
+                        ('adopt_cas_rlx', '!.a_cas = "rlx"')):     # the new owner's plain accesses to the record vs. the previous owner's (seeded change c03_5)
             tbt = '---- MODULE ThreadBlockList_RA ----\nEXTENDS ThreadBlockList\nOrdX == [OrdCode EXCEPT %s]\n====\n' % chg
             jobs.append(lambda nm=nm, tbt=tbt: tlc_mc(ctx, 'ra_toggle_tbl_' + nm, 'ThreadBlockList_RA', dict(tb_ra, Ord='<-OrdX'), invariants=INV_TBW, view='mcview', constraints=['MsgBound5'],
                                                         workers=3, expect='violation', extra_files={'ThreadBlockList_RA.tla': tbt}, tmo=1200))
